@@ -602,7 +602,16 @@ def check_crawl(spec, res, repo=None):
         page = _page(spec['site'], q['host'], q['path']) or {'status': 404}
         if q['path'] == '/robots.txt' and not (url in rows and in_scope_py(a, hosts, parse(url), _rec(rows[url]), parse)[0]):
             stats['robots_requests'] += 1
-            if '--no-robots' in spec['args'] or _origin(url) not in in_scope_origins:
+            visited = _origin(url) in in_scope_origins
+            if not visited and prev is not None:
+                # the origin of a redirect target that passes the rules as a hop is being visited too: its robots.txt is
+                # consulted after the redirect was received and before the hop is requested (never when the rules refuse the hop)
+                target = _join(prev[2], prev[1].get('location'))
+                if target and target.startswith('http://') and _origin(target) == _origin(url) and \
+                        in_scope_py(a, hosts, parse(target), _rec(prev[0]), parse, a['strong_redirects'])[0]:
+                    visited = True
+                    stats['robots_requests_for_hop_origin'] = stats.get('robots_requests_for_hop_origin', 0) + 1
+            if '--no-robots' in spec['args'] or not visited:
                 viol.append({'why': 'robots-request-for-origin-not-visited', 'url': url})
             continue
         verdicts = []
